@@ -128,7 +128,7 @@ pub fn units(tier: Tier, seed: u64) -> Vec<Unit> {
             u.push(unit!(format!("C01/{}({}, {}){}/k={k}", BINOPS[op], a.name(), c.name(), outer_w.as_ref().map(|o| format!(" under {}", o.name())).unwrap_or_default()), combine(op, a.clone(), c.clone(), outer_w.clone(), k)));
         }
     }
-    for x in u.iter_mut() { x.path_cap = 4000; x.budget_s = if q { 30.0 } else { 300.0 }; x.branch_nl_timeout_ms = Some(400); }
+    for x in u.iter_mut() { x.path_cap = 4000; x.budget_s = if q { 8.0 } else { 300.0 }; x.branch_nl_timeout_ms = Some(if q { 250 } else { 1000 }); }
     u
 }
 pub fn meta() -> Meta {
